@@ -20,6 +20,8 @@ import (
 	"github.com/ethereum/go-ethereum/crypto"
 	evmtypes "github.com/evmos/ethermint/x/evm/types"
 
+	"verif/harness/evmprog"
+
 	"github.com/functionx/fx-core/v8/contract"
 	fxtypes "github.com/functionx/fx-core/v8/types"
 	crosschainkeeper "github.com/functionx/fx-core/v8/x/crosschain/keeper"
@@ -442,3 +444,20 @@ func (s ethSigner) SignByAddress(_ sdk.Address, msg []byte, m signing.SignMode) 
 func BigInt(n int64) *big.Int { return big.NewInt(n) }
 
 func IntFromBig(b *big.Int) sdkmath.Int { return sdkmath.NewIntFromBigInt(b) }
+
+// InstallRunner places the Runner interpreter contract (see evmprog) at addr.
+func (c *Chain) InstallRunner(ctx sdk.Context, addr common.Address) {
+	if err := c.App.EvmKeeper.CreateContractWithCode(ctx, addr, evmprog.RunnerCode()); err != nil {
+		panic(err)
+	}
+}
+
+// RunScript sends the script to a Runner in one EVM transaction and decodes the per-op outcomes
+// (from the return data, or from the revert data if the top frame reverted).
+func (c *Chain) RunScript(ctx sdk.Context, from Key, runner common.Address, s evmprog.Script, value *big.Int, gasLimit uint64) (EthTxResult, []evmprog.Outcome) {
+	r := c.EthTx(ctx, from, &runner, value, s.Encode(), gasLimit)
+	if r.Resp == nil {
+		return r, nil
+	}
+	return r, evmprog.DecodeOutcomes(r.Resp.Ret, s)
+}
